@@ -426,17 +426,19 @@ def impl_layers(ctx, quick):
     _, so, _ = vp.run_driver(DRIVER, ["slotprobe"])
     par = vp.last_json_line(so)
     ctx.coverage["slotmap_impl_parameters_extracted"] = par
-    caps = [1, 2] if quick else [1, 2, 3]
+    caps = [1, 2]            # graph dump / conformance (capacity 3: 125 MB of edges in the defective variant)
+    rcaps = [1, 2] if quick else [1, 2, 3]
     d = ctx.path("mc", "slotimpl", "x")[:-2]
     with open(os.path.join(d, "MC_SI.tla"), "w") as f:
         f.write("---- MODULE MC_SI ----\nEXTENDS CSlotMapImpl, TLC, Json\n"
                 "Emit == PrintT(<<\"EDGE\", ToJson([f |-> Obs, l |-> last', t |-> Obs'])>>)\n====\n")
-    consts = (f"CONSTANTS\n Caps = {{{','.join(map(str, caps))}}}\n FixHead = {'TRUE' if par['fix_head'] else 'FALSE'}\n"
-              f" ClearLinks = {'TRUE' if par['clear_links'] else 'FALSE'}\n")
+    def consts(cs):
+        return (f"CONSTANTS\n Caps = {{{','.join(map(str, cs))}}}\n FixHead = {'TRUE' if par['fix_head'] else 'FALSE'}\n"
+                f" ClearLinks = {'TRUE' if par['clear_links'] else 'FALSE'}\n")
     with open(os.path.join(d, "dump.cfg"), "w") as f:
-        f.write("SPECIFICATION ISpec\n" + consts + "ACTION_CONSTRAINT Emit\nVIEW iview\nCHECK_DEADLOCK FALSE\n")
+        f.write("SPECIFICATION ISpec\n" + consts(caps) + "ACTION_CONSTRAINT Emit\nVIEW iview\nCHECK_DEADLOCK FALSE\n")
     with open(os.path.join(d, "refine.cfg"), "w") as f:
-        f.write("SPECIFICATION ISpec\n" + consts + "INVARIANT HeadIsFree\nPROPERTY Refines\nCHECK_DEADLOCK FALSE\n")
+        f.write("SPECIFICATION ISpec\n" + consts(rcaps) + "INVARIANT HeadIsFree\nPROPERTY Refines\nCHECK_DEADLOCK FALSE\n")
     # (a) conformance of the real slot maps to the implementation-shaped model (its graph, edge cover)
     dump = vp.tlc(d, "MC_SI", cfg="dump.cfg", workers=1, timeout=900, libs=["data"], heap="4g")
     vp.record_tlc(ctx, f"CSlotMapImpl graph [caps={caps} {par}]", dump)
@@ -453,7 +455,7 @@ def impl_layers(ctx, quick):
                                                 "divergences": {c: dv["count"] for c, dv in divs.items()}}
     # (b) refinement of the property layer
     ref = vp.tlc(d, "MC_SI", cfg="refine.cfg", workers=6, timeout=1500, libs=["data"], heap="6g")
-    vp.record_tlc(ctx, f"CSlotMapImpl refines CSlotMap [caps={caps} {par}]", ref)
+    vp.record_tlc(ctx, f"CSlotMapImpl refines CSlotMap [caps={rcaps} {par}]", ref)
     if ref.timed_out or (not ref.ok and not ref.violated):
         raise vp.ToolError(f"TLC failed on CSlotMapImpl: {ref.error}\n{ref.output[-2000:]}")
     if not conform:
@@ -552,6 +554,7 @@ def run(ctx):
         if s.get("sample"):
             ctx.sample({"container": key, "mode": s["mode"], "history": s["sample"]})
     digest(ctx, summaries, stats)
+    vp.log(f"lock-step: {len(jobs)} driver runs, {sum(s.get('wall', 0) for s in summaries):.0f}s summed, done at {ctx.elapsed():.0f}s")
     # ---- 3. vacuity of the executions
     for kind, k in KINDS.items():
         for a, _ in k["need"]:
